@@ -161,6 +161,26 @@ theorem forward_returns (w : World) (j : Nat) (s : Trxd.TxMsg) (src : Trx) (fnI 
     ∃ w' out, forwardMsg w j s = .ok (w', out) :=
   forwardMsg_total w j s src fnI pwr bits hj hfn hp hb hbits hok hwf hthr
 
+/-- `FreqOk` is no restriction either: in a world whose hopping parameters all come from
+`HoppingParams.__init__` (`FhSane`; `enable_fh` is the only producer, `commonCmd_fh`), every
+frequency resolves in every frame (C07 `py_resolve_total`) -/
+theorem freqOk_of_sane (w : World) (h : FhSane w) (fn : Nat) : FreqOk w fn :=
+  World.freqOk_of_sane w h fn
+
+/-- the only hopping parameters a TRXC command installs are results of `HoppingParams.__init__` -/
+theorem fh_from_init (trx : Trx) (req : List PyStr.Str) (hp : Hopping.HoppingParams (Int × Int))
+    (rc : Int) (h : commonCmd trx req = .ok (.patch (.fh hp) rc)) :
+    ∃ hsn maio ma, Hopping.pyInit hsn maio ma = .ok hp :=
+  commonCmd_fh trx req hp rc h
+
+/-- `DistinctDataPorts` holds for every world `Application.__init__` builds from `--trx`
+definitions without (address, DATA port) overlap (`NoPortOverlap`, decidable; the duplicate check
+of `TRXList.add_trx` alone does not exclude e.g. `(a, 5700, 1)` and `(a, 5702, 0)`, see the
+example below — the real program fails to bind the second socket) -/
+theorem distinct_of_build (seed : Nat) (extra : List (Nat × Nat × Nat)) (w : World)
+    (h : build seed extra = .ok w) (hno : NoPortOverlap extra) : DistinctDataPorts w :=
+  build_distinctDataPorts h hno
+
 /-- nothing is delivered back to the sender -/
 theorem nothing_to_sender (w : World) (j : Nat) (s : Trxd.TxMsg) (src : Trx) (fnI : Int)
     (bits : List Nat) (w' : World) (out : List Dgram)
@@ -239,8 +259,42 @@ example : ∃ w' out, forwardMsg world 0 (burst 52) = .ok (w', out) ∧
     (by decide +kernel) (by decide +kernel) (by decide +kernel) (by decide) (by decide) (by decide)
     (by decide) (by decide +kernel) h k tk hk
 
+/-- `NoPortOverlap` holds for the plain BTS + MS set-up and for a usual multi-TRX one -/
+example : NoPortOverlap [] ∧ NoPortOverlap [(1, 5700, 1), (1, 5700, 2), (2, 7700, 0)] := by decide
+
+/-- the overlap is real: these definitions pass `build`, but two transceivers share DATA port 5704 -/
+example : ∃ w, build 0 [(1, 5700, 1), (1, 5702, 0)] = .ok w ∧ ¬ DistinctDataPorts w := by
+  obtain ⟨w, h⟩ := exists_of_isOk (build 0 [(1, 5700, 1), (1, 5702, 0)]) (by decide +kernel)
+  refine ⟨w, h, ?_⟩
+  unfold DistinctDataPorts
+  have := build_keys h
+  unfold portKey at this
+  rw [this]
+  decide
+
 /-- hopping: the BTS hops over two frequencies (HSN 5); who receives depends on the frame number -/
 example : recipients worldHop 0 0 = [2] ∧ recipients worldHop 0 1 = [1] ∧
     FreqOk worldHop 0 ∧ FreqOk worldHop 1 := by decide +kernel
+
+/-- `FhSane` holds for the example worlds (the hopping BTS got its parameters from `pyInit`) -/
+example : FhSane worldHop ∧ FhSane world := by
+  constructor
+  · intro t ht hp hf
+    simp only [worldHop, List.mem_cons, List.not_mem_nil, or_false] at ht
+    rcases ht with rfl | rfl | rfl
+    · refine ⟨5, 0, [(890000000, 935000000), (891000000, 936000000)], ?_⟩
+      have : btsHop.fh = hop2 := rfl
+      rw [this] at hf
+      unfold hop2 at hf
+      split at hf
+      · rename_i hp' h'
+        injection hf with hf
+        rw [← hf]; exact h'
+      · cases hf
+    · cases hf
+    · cases hf
+  · intro t ht hp hf
+    simp only [world, List.mem_cons, List.not_mem_nil, or_false] at ht
+    rcases ht with rfl | rfl | rfl | rfl | rfl | rfl | rfl <;> cases hf
 
 end OsmoVerif.Props.C02
